@@ -672,6 +672,15 @@ class Operation:
     def get_ifm_ifm2_weights_ofm(self):
         return self.ifm, self.ifm2, self.weights, self.ofm
 
+    def get_all_ifms(self):
+        # IFM and IFM2, or every input of an operator that concatenates a variable number of feature maps
+        if self.type in (Op.ConcatTFLite, Op.Pack):
+            return tuple(self.inputs)
+        return self.ifm, self.ifm2
+
+    def get_all_ifms_weights_ofm(self):
+        return (*self.get_all_ifms(), self.weights, self.ofm)
+
     def get_ifm_ifm2_ofm(self):
         return self.ifm, self.ifm2, self.ofm
 
